@@ -78,6 +78,7 @@ sslKeys_t *load_keys(const KeySpec &ks, int *rc_out) {
         if (!done) { forged[forged.size() - 6] ^= 0x04; }
         id.cert = forged.data();
     }
+    if (have_id && ks.cert_is_ca) { id.cert = id.ca; id.certLen = id.caLen; }
     Bytes chained;
     if (have_id && ks.chain) { chained.assign(id.cert, id.cert + id.certLen); chained.insert(chained.end(), id.ca, id.ca + id.caLen); id.cert = chained.data(); id.certLen = chained.size(); }
     if (have_id || !cas.empty()) {
